@@ -42,7 +42,7 @@ def build(u):
     sp = RA.SPEC
     # the value type, the recording visitors and the annotation-level visitor; not the byte-level relations
     keep = sp[:sp.index('// encoded sizes')] + sp[sp.index('// ---- recording visitors'):sp.index('// JVMS 4.7.16 annotation')] \
-        + 'pub type Annots = Seq<(FieldDescriptor, Pairs)>;\n' + sp[sp.index('pub struct AV {'):sp.index('// the suffix a visitor received')]
+        + 'pub type Annots = Seq<(FieldDescriptor, Pairs)>;\n' + sp[sp.index('pub struct AV {'):sp.index('// ---- JVMS 4.7.20 type_annotation')]
     u.raw(keep)
     u.raw(OF)
     u.drop('generic visitor parameter instantiated at the recording visitors NV / UV / AV (signature and `A::` / `AnnotationsVisitor::` paths rewritten; bodies unchanged)')
@@ -77,3 +77,26 @@ def build(u):
          proof_before=[(r'AV::finish_annotation', '        proof { let ps = pairs_of(me.element_value_pairs@, me.element_value_pairs@.len() as int); assert(Seq::<(JavaString, EvV)>::empty() + ps =~= ps); }')],
          ensures=[C('C17.annot.replay.annotation.visitor-is-told-the-type-and-exactly-the-stored-pairs',
                     'res matches Ok(o) ==> o.log@ == visitor.log@.push((self.annotation_type, pairs_of(self.element_value_pairs@, self.element_value_pairs@.len() as int)))')])
+
+    # ---- TypeAnnotation::accept (duke/src/tree/type_annotation.rs)
+    u.raw('''
+#[verifier::external_body] pub struct TypePath { _p: () }
+pub type TAnnots<T> = Seq<(T, TypePath, FieldDescriptor, Pairs)>;
+pub struct TV<T> { pub log: Ghost<TAnnots<T>> }
+pub struct TVRes<T> { pub log: Ghost<TAnnots<T>>, pub target: Ghost<T>, pub path: Ghost<TypePath>, pub ty: Ghost<FieldDescriptor> }
+impl<T> TV<T> {
+    #[verifier::external_body] pub fn visit_type_annotation(self, type_reference: T, type_path: TypePath, annotation_descriptor: FieldDescriptor) -> (res: Result<(TVRes<T>, NV), VErr>)
+        ensures res matches Ok(p) ==> p.0.log@ == self.log@ && p.0.target@ == type_reference && p.0.path@ == type_path && p.0.ty@ == annotation_descriptor && p.1.log@ == Seq::<(JavaString, EvV)>::empty() { unimplemented!() }
+    #[verifier::external_body] pub fn finish_type_annotation(this: TVRes<T>, named_element_values_visitor: NV) -> (res: Result<TV<T>, VErr>)
+        ensures res matches Ok(r) ==> r.log@ == this.log@.push((this.target@, this.path@, this.ty@, named_element_values_visitor.log@)) { unimplemented!() }
+}
+''')
+    TA = 'duke/src/tree/type_annotation.rs'
+    u.item(TA, 'struct', 'TypeAnnotation', derives=[])
+    u.fn(TA, 'TypeAnnotation::accept', impl=r'TypeAnnotation<T>', impl_header='impl<T> TypeAnnotation<T>', ret='res',
+         sig_rewrites=[(r'fn accept<A: TypeAnnotationsVisitor<T>>\(self, visitor: A\)', 'fn accept(self, visitor: TV<T>)'), (r'-> Result<A', '-> Result<TV<T>')],
+         rewrites=[(r'\bTypeAnnotationsVisitor::finish_type_annotation', 'TV::finish_type_annotation'), (r'super::annotation::accept_element_values_named', 'accept_element_values_named')],
+         head_proof='let ghost me = self;',
+         proof_before=[(r'TV::finish_type_annotation', '        proof { let ps = pairs_of(me.annotation.element_value_pairs@, me.annotation.element_value_pairs@.len() as int); assert(Seq::<(JavaString, EvV)>::empty() + ps =~= ps); }')],
+         ensures=[C('C17.annot.replay.type-annotation.visitor-is-told-target-path-type-and-exactly-the-stored-pairs',
+                    'res matches Ok(o) ==> o.log@ == visitor.log@.push((self.type_reference, self.type_path, self.annotation.annotation_type, pairs_of(self.annotation.element_value_pairs@, self.annotation.element_value_pairs@.len() as int)))')])
